@@ -212,6 +212,58 @@ end program kn_main
   j = k_
 end subroutine kn_main2
 """,
+    "kx_a.f90": """module ka_g1
+  implicit none
+  type :: grand1_t
+    integer :: g1_val
+  end type grand1_t
+end module ka_g1
+module ka_p2
+  use kb_g2
+  implicit none
+  type, extends(grand2_t) :: parent2_t
+    integer :: p2_val
+  end type parent2_t
+end module ka_p2
+module ka_c1
+  use kb_p1
+  implicit none
+  type, extends(parent1_t) :: child1_t
+    integer :: c1_val
+  end type child1_t
+contains
+  subroutine use_c1()
+    type(child1_t) :: o1
+    o1%
+  end subroutine use_c1
+end module ka_c1
+""",
+    "kx_b.f90": """module kb_g2
+  implicit none
+  type :: grand2_t
+    integer :: g2_val
+  end type grand2_t
+end module kb_g2
+module kb_p1
+  use ka_g1
+  implicit none
+  type, extends(grand1_t) :: parent1_t
+    integer :: p1_val
+  end type parent1_t
+end module kb_p1
+module kb_c2
+  use ka_p2
+  implicit none
+  type, extends(parent2_t) :: child2_t
+    integer :: c2_val
+  end type child2_t
+contains
+  subroutine use_c2()
+    type(child2_t) :: o2
+    o2%
+  end subroutine use_c2
+end module kb_c2
+""",
     "geo_main.f90": """program geo_main
   use geo_poly, only: poly_t, poly_reset
   use geo_base, only: s
@@ -252,6 +304,12 @@ CATALOGUE_CASES = [
     ("ONLY list names the used module's own procedure", "kn_main.f90", 5, 9, None, {"u_help"}, set()),
     ("disjoint ONLY lists plus a direct USE ONLY of the inner module", "kn_main2.f90", 5, 8, None, {"k_sp"}, {"k_dp", "k_long"}),
 ]
+# asked right after initialization, before any document is opened: two three-level hierarchies laid crosswise over two files, so that
+# whichever file is linked first holds a child whose parent lives in the other
+INIT_CASES = [
+    ("member three levels deep right after start-up (hierarchy 1)", "kx_a.f90", 22, 7, {"g1_val", "p1_val", "c1_val"}),
+    ("member three levels deep right after start-up (hierarchy 2)", "kx_b.f90", 22, 7, {"g2_val", "p2_val", "c2_val"}),
+]
 # after the root type of the four-level chain (geo_base.f90) gained a component and was saved: (what, file, line, character, present)
 AFTER_SAVE_CASES = [
     ("member four levels deep after the root type was saved with a new component", "geo_rect.f90", 17, 7, {"colour", "id", "width", "nsides"}),
@@ -266,6 +324,14 @@ def check_catalogue(ctx):
             with open(os.path.join(root, n), "w") as f:
                 f.write(t)
         srv, conn = impl.make_server(root, extra=["--nthreads", "1"])
+        for (what, fn, line, ch, present) in INIT_CASES:
+            labs, raw = labels_at(srv, conn, os.path.join(root, fn), line, ch)
+            got = {l.lower() for l, _ in (labs or [])}
+            ctx.count(("catalogue", what), True)
+            if labs is None or present - got:
+                ctx.report("C12:members-at-startup", "%s: misses %s" % (what, sorted(present - got)),
+                           {"kind": "counterexample", "input": {"files": CATALOGUE_FILES, "file": fn, "line": line, "character": ch, "history": "initialize only"},
+                            "implementation": sorted(got)[:60], "oracle": {"present": sorted(present)}})
         for n in CATALOGUE_FILES:
             impl.did_open(srv, os.path.join(root, n))
         for (what, fn, line, ch, _, present, absent) in CATALOGUE_CASES:
